@@ -241,8 +241,9 @@ func (p *Parser) statement() (Statement, error) {
 
 		return &StatementIf{expr, body, elseBody}, nil
 	case While:
+		// break and continue belong to this loop only inside its body. in the
+		// header (a match block there) they still belong to an enclosing loop
 		wasInLoop := p.inLoop
-		p.inLoop = true
 		defer func() { p.inLoop = wasInLoop }()
 
 		if err := p.consume(While); err != nil {
@@ -261,6 +262,7 @@ func (p *Parser) statement() (Statement, error) {
 			return nil, err
 		}
 
+		p.inLoop = true
 		body, err := p.statement()
 		if err != nil {
 			return nil, err
@@ -269,7 +271,6 @@ func (p *Parser) statement() (Statement, error) {
 		return &StatementWhile{expr, body}, nil
 	case For:
 		wasInLoop := p.inLoop
-		p.inLoop = true
 		defer func() { p.inLoop = wasInLoop }()
 
 		// for (
@@ -307,6 +308,7 @@ func (p *Parser) statement() (Statement, error) {
 					return nil, err
 				}
 
+				p.inLoop = true
 				body, err := p.statement()
 				if err != nil {
 					return nil, err
@@ -338,6 +340,7 @@ func (p *Parser) statement() (Statement, error) {
 			return nil, err
 		}
 
+		p.inLoop = true
 		body, err := p.statement()
 		if err != nil {
 			return nil, err
